@@ -123,8 +123,8 @@ def combos():
         C.append(("harmonicWalls", vt, "fixed"))
     for vt in ("lower", "both", "both_klku", "periodic"):
         for sk in ("k_cont", "k_staged", "k_lsched", "dec_cont", "dec_staged"):
-            if vt == "both_klku" and sk.startswith("dec"):
-                continue      # 'decoupling' is documented from forceConstant to 0: undefined with two constants
+            # (decoupling with two wall constants: both go from their values to 0 together; the library used to start from
+            #  forceConstant instead - fixed, see known_findings.txt)
             C.append(("harmonicWalls", vt, sk))
     for vt in ("scalar", "multi"):
         for sk in ("fixed", "k_cont", "k_staged", "k_lsched", "dec_cont", "dec_staged"):
